@@ -506,6 +506,30 @@ EXCLUDED = {
 }
 
 
+def _deep_perturb(obj, depth=3):
+    """Change an argument in place (and everything dict-like nested in it): used AFTER a call to see whether the callee
+    kept a reference to its input."""
+    if depth < 0:
+        return
+    try:
+        if isinstance(obj, dict):
+            for v in list(obj.values()):
+                if isinstance(v, (dict, list)):
+                    _deep_perturb(v, depth - 1)
+            keys = [k for k in obj if isinstance(k, tuple)]
+            if keys or hasattr(obj, "squash_key"):
+                k = keys[0] if keys else ()
+                obj[k] = obj.get(k, 0) + 5
+                lab = k[0] if k else 0
+                obj[(lab,)] = obj.get((lab,), 0) - 3
+        elif isinstance(obj, list):
+            for v in obj:
+                if isinstance(v, (dict, list)):
+                    _deep_perturb(v, depth - 1)
+    except Exception:  # noqa
+        pass
+
+
 NONMUTATING = ("to_pubo", "to_puso", "to_qubo", "to_quso", "to_enumerated", "solve_bruteforce", "value", "is_solution_valid", "convert_solution",
                "remove_ancilla_from_solution", "subgraph", "subvalue", "subs", "__add__", "__sub__", "__mul__", "__radd__", "__rsub__", "__rmul__")
 
@@ -515,6 +539,7 @@ def check_registry(case, st):
     n = 0
     for desc, fn, args, kwargs in _calls_for(entry):
         n += 1
+        orig_fn, orig_args = fn, list(args)
         # the receiver of a non-mutating method is "a model passed to" that method as well
         recv = getattr(fn, "__self__", None)
         if recv is not None and entry.split(".")[-1] in NONMUTATING and isinstance(recv, dict):
@@ -529,6 +554,20 @@ def check_registry(case, st):
             st.outcomes["raised " + r.kind] += 1
         else:
             st.outcomes["returned"] += 1
+        # ... and the other direction: changing an argument AFTER the call must not reach into the receiver or the result
+        if not isinstance(r, Raised):
+            recv0 = getattr(orig_fn, "__self__", None)
+            targets = [("receiver", recv0)] if isinstance(recv0, dict) else []
+            if isinstance(r, (dict, list, tuple, set)) and not any(r is a for a in args):
+                targets.append(("result", r))
+            tsn = [snap(t) for _n, t in targets]
+            for a in orig_args:
+                _deep_perturb(a)
+            for (tname, t), b0 in zip(targets, tsn):
+                if t is not None and not any(t is a for a in orig_args) and snap(t) != b0:
+                    st.violation("argument-aliased|%s|%s" % (entry, tname), case,
+                                 "C19 %s(%s): changing an argument after the call changed the %s (it kept a reference to its input): %s"
+                                 % (entry, ", ".join(short(x, 80) for x in orig_args), tname, short(t, 300)))
         for i, (b, a) in enumerate(zip(before, after)):
             if a != b:
                 st.violation("argument-mutated|%s|arg%d" % (entry, i), case,
